@@ -102,6 +102,14 @@ CHECKS = {
             "ill-formed text must raise MisformedRegexError and nothing else.",
             "Trusted: TLC, projections, the renderer. Texts the documentation does not settle are UNSPEC.",
             "DESIGN.md section 3 C05"),
+    "C13": ("TLA+ PDA API state machine (PDAGen) and grammar generator enumerated by TLC, replayed through the public API; "
+            "to_pda / to_cfg / to_final_state / to_empty_stack judged by TracePDA with PDASem: acceptance by empty stack "
+            "and by final state decided exactly by a pop-summary least fixpoint (no stack bound), itself model-checked "
+            "against bounded configuration search (SemOK)",
+            "Exhaustive within small constants (nondeterministic PDAs with epsilon moves, stack-growing epsilon cycles, "
+            "pushes of 0-3 symbols, 0-2 final states, reserved fresh names) plus random PDAs and the C08 grammar family; "
+            "every conversion is compared on all words up to L=3|4 with exact PDA acceptance.",
+            "Trusted: TLC, projection (start stack symbol through to_networkx). Words up to L.", "DESIGN.md section 3 C13"),
 }
 
 NOT_YET = "check not built yet in this round (see DESIGN.md section 9, build order); no claim is made"
